@@ -181,6 +181,23 @@ def fetch_scenarios(hists, rnd, limit):
         if dirs:
             st["uriStyle"] = rnd.choice(["rel", "abspath", "absurl", "sub"])
         scs.append(scenario("media", [st], "ll%d" % i, dirs=dirs))
+    # Low-Latency leading stream + Low-Latency audio rendition, each with its own hint sequence
+    for i in range(3 if limit < 200 else 30):
+        def llvers(h0, k):
+            out = []
+            for q in range(k):
+                h = h0 + q
+                ms_n = (h - 1) // 2
+                n = rnd.randint(1, min(4, ms_n))
+                out.append(ver(ms_n - n, n, False, "", h))
+            out.append(ver(out[-1]["ms"], out[-1]["n"], False, "", 0, wait=80))
+            return out
+        h0 = rnd.randint(4, 9) * 2 + 1
+        s0 = stream("fmp4", [H264], llvers(h0, rnd.randint(2, 4)), [900000], [1800], 2, ll=True, canSkip=rnd.random() < 0.5, segDurMs=40,
+                    hintRanges=rnd.random() < 0.5)
+        s1 = stream("fmp4", [opus()], llvers(h0, rnd.randint(2, 4)), [480000], [960], 2, ll=True, canSkip=rnd.random() < 0.5, segDurMs=40,
+                    name="eng", lang="en", default=True, query=rnd.choice(["", "tok=1"]), hintRanges=rnd.random() < 0.5)
+        scs.append(scenario("multi", [s0, s1], "llmv%d" % i))
     return scs
 
 
